@@ -259,6 +259,48 @@ pub fn rec_powf32(b: f32, e: f32) -> f32 {
     log32(e);
     b
 }
+/// semantic `powf` for the exponents a Minkowski distance of order 1..3 needs: exact products for 1, 2, 3, sqrt for 1/2 and a
+/// *specification* for 1/3 (any c >= 0 with c^3 = b up to rounding).  Lets the harness check VALUES without CBMC's libm model.
+#[cfg(kani)]
+pub fn powf_sem64(b: f64, e: f64) -> f64 {
+    if e == 1.0 {
+        b
+    } else if e == 2.0 {
+        b * b
+    } else if e == 3.0 {
+        b * b * b
+    } else if e == 0.5 {
+        b.sqrt()
+    } else {
+        assert!(e == 1.0 / 3.0, "VP:unexpected-powf-exponent");
+        if b == 0.0 {
+            return 0.0;
+        }
+        let c: f64 = kani::any();
+        kani::assume(c >= 0.0 && (c * c * c - b).abs() <= 1e-12 * (1.0 + b.abs()));
+        c
+    }
+}
+#[cfg(kani)]
+pub fn powf_sem32(b: f32, e: f32) -> f32 {
+    if e == 1.0 {
+        b
+    } else if e == 2.0 {
+        b * b
+    } else if e == 3.0 {
+        b * b * b
+    } else if e == 0.5 {
+        b.sqrt()
+    } else {
+        assert!(e == 1.0 / 3.0, "VP:unexpected-powf-exponent");
+        if b == 0.0 {
+            return 0.0;
+        }
+        let c: f32 = kani::any();
+        kani::assume(c >= 0.0 && (c * c * c - b).abs() <= 1e-5 * (1.0 + b.abs()));
+        c
+    }
+}
 pub fn rec_tanh64(x: f64) -> f64 {
     log64(x);
     x
